@@ -148,8 +148,8 @@ fn stage_token(r: Option<&Round>, call_ok: bool) -> String {
 // operations of a C19 history
 
 #[derive(Clone, Copy, Debug, PartialEq, Eq, Serialize, Deserialize)]
-enum Api { Create, Open, OpenRo, Doctor, TryOpen }
-const APIS: [Api; 5] = [Api::Create, Api::Open, Api::OpenRo, Api::Doctor, Api::TryOpen];
+enum Api { Create, Open, OpenRo, Doctor, TryOpen, Verify }
+const APIS: [Api; 6] = [Api::Create, Api::Open, Api::OpenRo, Api::Doctor, Api::TryOpen, Api::Verify];
 
 #[derive(Clone, Debug, PartialEq, Eq, Serialize, Deserialize)]
 enum XOp {
@@ -231,6 +231,7 @@ fn api_raw(api: Api, p: &Path, rebuild: bool) -> Result<Option<Memvid>, MemvidEr
         Api::Open => Memvid::open(p).map(Some),
         Api::OpenRo => Memvid::open_read_only(p).map(Some),
         Api::TryOpen => verif_hooks::try_open(p).map(Some),
+        Api::Verify => Memvid::verify(p, true).map(|_| None),
         Api::Doctor => {
             let mut o = doctor_opts();
             if rebuild { o.rebuild_time_index = true; o.rebuild_lex_index = true; }
@@ -306,7 +307,6 @@ struct Run<'d> {
     committed_once: bool,
     tampered: bool,
     drv: Option<&'d mut Driver>,
-    trace: Vec<String>,
     branches: Vec<String>,
     rounds_seen: usize,
     failing_calls: usize,
@@ -349,7 +349,7 @@ impl<'d> Run<'d> {
         let last = world.observe();
         let mut r = Run {
             world, dir, watch, side: None, side_ro: false, expected: BTreeSet::new(), last, committed_once: false, tampered: false,
-            drv, trace: vec![], branches: vec![], rounds_seen: 0, failing_calls: 0, refusals: 0, crashed: false, cur_events: vec![],
+            drv, branches: vec![], rounds_seen: 0, failing_calls: 0, refusals: 0, crashed: false, cur_events: vec![],
         };
         r.expected.insert(MAIN.into());
         if let Some(d) = r.drv.as_deref_mut() {
@@ -564,7 +564,7 @@ impl<'d> Run<'d> {
                 let req = match api {
                     Api::Create => format!("create {SIDE} none"),
                     Api::Open | Api::TryOpen => format!("open {SIDE} 0 none"),
-                    Api::OpenRo => format!("open {SIDE} 1 none"),
+                    Api::OpenRo | Api::Verify => format!("open {SIDE} 1 none"),
                     Api::Doctor => String::new(),
                 };
                 let events = self.take_events();
@@ -578,6 +578,11 @@ impl<'d> Run<'d> {
                 } else {
                     out.reqs.push(req);
                     out.real.push(Some(res.clone()));
+                    if *api == Api::Verify && res == "ok" {
+                        // verify opens read-only and lets go of the handle itself
+                        out.reqs.push(format!("drop {SIDE} 0 early"));
+                        out.real.push(Some("ok".into()));
+                    }
                 }
                 // a handle that was handed out (no refusal) is dropped at once
                 if let Some(m) = h {
@@ -612,7 +617,7 @@ impl<'d> Run<'d> {
                 let (path, req) = match api {
                     Api::Create => (self.dir.join("nodir").join("x.mv2"), "create nodir/x.mv2 io".to_string()),
                     Api::Open | Api::TryOpen => (self.dir.join("nope.mv2"), "open nope.mv2 0 none".to_string()),
-                    Api::OpenRo => (self.dir.join("nope.mv2"), "open nope.mv2 1 none".to_string()),
+                    Api::OpenRo | Api::Verify => (self.dir.join("nope.mv2"), "open nope.mv2 1 none".to_string()),
                     Api::Doctor => (self.dir.join("nope.mv2"), "doctor nope.mv2 0 - 0".to_string()),
                 };
                 let (res, h) = call_api(*api, &path, &self.dir);
@@ -903,7 +908,7 @@ fn contention(api: Api, base: &Path, ready: std::sync::mpsc::Sender<()>) -> Cont
 fn corpus() -> Vec<(String, Vec<XOp>)> {
     let put = |kind, len, seed, ts| XOp::Core(Op::Put(PutSpec::simple(PayloadSpec::new(kind, len, seed), ts)));
     let mut v: Vec<(String, Vec<XOp>)> = vec![];
-    // the sidecar matrix: 8 candidates x {create, open, open_read_only, doctor, try_open}
+    // the sidecar matrix: 8 candidates x {create, open, open_read_only, doctor, try_open, verify}
     let mut ops = vec![XOp::SideCreate, XOp::SidePut { len: 300, seed: 1 }, XOp::SideCommit, XOp::SideDrop];
     for api in APIS {
         for k in 0..8 { ops.push(XOp::SideAttempt { api, cands: vec![k] }); }
@@ -957,12 +962,12 @@ fn main() {
     unsafe { std::env::set_var("TMPDIR", &base); }
     let rule = "histories on real files: the Core family's op generator on m.mv2 (puts incl. rejected ones: capacity, dimension, invalid frame id; \
                 commit, auto-commit, reopen, crash, read-only, batch, vacuum, doctor, ticket) interleaved with a second memory s.mv2, the caller's own files \
-                (incl. near-miss sidecar names), entry-point calls with planted sidecars (8 candidates x create/open/open_read_only/doctor/try_open), calls on \
+                (incl. near-miss sidecar names), entry-point calls with planted sidecars (8 candidates x create/open/open_read_only/doctor/try_open/verify), calls on \
                 missing paths, lock contention; after EVERY op: directory listing == the caller's own bookkeeping (oracle), inotify event stream + listing + \
                 answer == the Lean model; non-trivial = a history with at least one staging round and one failing or refused call; distinct = op/answer trace";
     let mut sum = Summary::new("C19", &args, rule);
     sum.expect_branches(&["staging-committed", "auto-commit", "drop-commit", "crash", "op-vacuum", "op-doctor", "doctor-internal-commit", "second-memory",
-        "caller-file", "lock-contention", "missing-path", "refused-Create", "refused-Open", "refused-OpenRo", "refused-Doctor", "refused-TryOpen",
+        "caller-file", "lock-contention", "missing-path", "refused-Create", "refused-Open", "refused-OpenRo", "refused-Doctor", "refused-TryOpen", "refused-Verify",
         "refused-create-of-new-memory", "fail-capacity", "fail-dim-mismatch", "fail-not-found", "read-call", "commit-without-work",
         "contention-Create", "contention-Open", "contention-OpenRo", "fault-injection-rename-fails-temp-leaked",
         "staging-dropped-on-early-return", "staging-discarded-on-op-error", "staging-discarded-in-destructor"]);
@@ -971,6 +976,18 @@ fn main() {
     if args.mode == "replay" {
         let case = load_replay(args.replay_file.as_ref().expect("replay file"));
         let input = case.get("input").cloned().unwrap_or(case);
+        if let Some(api) = input.get("api").and_then(|a| a.as_str()) {
+            // a lock-contention scenario
+            let api = match api { "Create" => Api::Create, "OpenRo" => Api::OpenRo, _ => Api::Open };
+            let (tx, _rx) = std::sync::mpsc::channel::<()>();
+            let c = contention(api, &lock_base, tx);
+            println!("{api:?} while the first writer holds the lock: answer {} after {:.1} s, events {}, listing {:?} -> {:?}, bytes unchanged {}",
+                c.res, c.secs, show_effs(&c.events), c.before, c.after, c.hash_same);
+            if c.before != c.after || !c.hash_same { sum.oracle_violation("foreign-entry-in-directory", "lock contention changed the directory or the memory", input.clone()); }
+            sum.case("contention", true, || json!({}));
+            let _ = std::fs::remove_dir_all(&base); let _ = std::fs::remove_dir_all(&lock_base);
+            sum.finish(&args);
+        }
         let ops: Vec<XOp> = serde_json::from_value(input.get("ops").cloned().expect("ops")).expect("ops");
         let (_, o) = run_history(Source::Fixed(&ops), drv.as_mut(), true);
         if let Some((sig, what, i)) = &o.oracle { println!("ORACLE VIOLATED at op #{i}: {sig}: {what}"); sum.oracle_violation(sig, what, json!({"ops": ops_to_json(&ops)})); }
@@ -1001,13 +1018,21 @@ fn main() {
     let known: Vec<String> = args.extra.get("known").map(|s| s.split(',').map(|x| x.to_string()).collect()).unwrap_or_default();
     let _ = &known;
     let mut tmp_left_total = 0usize;
+    let shrink_secs: u64 = args.extra.get("shrink").and_then(|s| s.parse().ok()).unwrap_or(if args.thorough { 240 } else { 60 });
+    let mut total_ops = 0usize;
 
     let mut record = |sum: &mut Summary, label: &str, ops: &[XOp], o: &Outcome, drv: &mut Option<Driver>, fault: bool| {
+        total_ops += o.trace.len();
         for b in &o.branches { sum.branch(b); }
         if let Some((sig, what, idx)) = &o.oracle {
             // shrink: same failure class on the real code alone
             let sig0 = sig.clone();
-            let mut fails = |cand: &[XOp]| -> bool { let (_, oo) = run_history(Source::Fixed(cand), None, false); oo.oracle.as_ref().map(|x| x.0 == sig0).unwrap_or(false) };
+            let deadline = std::time::Instant::now() + std::time::Duration::from_secs(shrink_secs);
+            let mut fails = |cand: &[XOp]| -> bool {
+                if std::time::Instant::now() > deadline { return false; }
+                let (_, oo) = run_history(Source::Fixed(cand), None, false);
+                oo.oracle.as_ref().map(|x| x.0 == sig0).unwrap_or(false)
+            };
             let prefix = &ops[..(*idx + 1).min(ops.len())];
             let small = if prefix.len() > 1 && fails(prefix) { shrink_list(prefix, &mut fails) } else { ops.to_vec() };
             sum.oracle_violation(sig, what, json!({"label": label, "ops": ops_to_json(&small)}));
@@ -1042,7 +1067,8 @@ fn main() {
         let (done, o) = run_history(Source::Gen { rng: &mut hr, prof: &prof, len, long }, drv.as_mut(), false);
         tmp_left_total += o.tmp_left.len();
         record(&mut sum, &format!("gen-{h}"), &done, &o, &mut drv, false);
-        if sum.oracle_violations.len() + sum.disagreements.len() >= 5 { break; }
+        // a violation is decisive: stop generating once one is in hand
+        if !sum.oracle_violations.is_empty() || sum.disagreements.len() >= 3 { break; }
     }
 
     // lock contention results
@@ -1069,6 +1095,8 @@ fn main() {
         }
         sum.case(&format!("{label}:{}", c.res), true, || case.clone());
     }
+    drop(record);
+    sum.notes.push(format!("{total_ops} operations executed on the real API; after each one: listing vs caller's bookkeeping (oracle), answer + inotify events + listing vs the Lean model"));
     let dp = DOCTOR_PANICS.load(std::sync::atomic::Ordering::Relaxed);
     if dp > 0 { sum.notes.push(format!("{dp} doctor runs tripped the debug assertion `probe detected N pending wal records` (C21/C22 finding); counted as failed calls here")); }
     if tmp_left_total > 0 { sum.notes.push(format!("{tmp_left_total} entries were left in the (private) system temp directory after all handles of a crash-free history were dropped")); }
